@@ -62,7 +62,7 @@ def parse(P, text, overrides=(), additional=()):
         cp = I.instantiate(cls, [PyObjV(M.TextFile(text))], {"overrides": ov, "additional": ad}, None)
     except RaiseSignal as e:
         return ("raise", e.exc)
-    raw = cp.attrs["_config_parser"]
+    raw = I.getattr(cp, "raw_config_parser")
     state = {}
     for k, d in raw.attrs["_sections"].items.values():
         state[k.v] = dict((kk.v, vv.v) for kk, vv in d.items.values())
